@@ -1,7 +1,8 @@
 (* Hand-written model of font/cmap.go: newCmap4, cmap4 / cmap12 / cmap13 / cmap6or10 Lookup, their
    iterators run to completion (Next/Char until Next is false), RuneRanges, and remaperSymbol.Lookup.
    uint16 / uint32 arithmetic wraps explicitly; rune(x) conversions are sint32.  No proofs here.
-   The model follows the code after the `fix:` commit that makes cmap4Iter add idDelta modulo 65536. *)
+   The model follows the code after the `fix:` commits (cmap4Iter adds idDelta modulo 65536; newCmap4 rejects
+   end < start, more than 2^16 resolved indexes and a negative index start). *)
 From TV Require Export Lib.Bytes Lib.Res Model.RuneSet.
 
 (* ---------------------------------- format 4 ---------------------------------- *)
@@ -17,20 +18,28 @@ Fixpoint read_indexes (ga : list Z) (index : Z) (n : nat) : res (list Z) :=
       if (index <? 0) || (zlen ga <? 2 * index + 2) then Panic 2
       else do r <- read_indexes ga (index + 1) n'; Ok (get16 (zskipn (2 * index) ga) :: r)
   end.
-Definition new_seg4 (segCount i : Z) (q : Z * Z * Z * Z) (ga : list Z) : res seg4 :=
+(* `resolved` = running total of resolved glyph indexes: the (repaired) code rejects a segment with end < start, a table
+   resolving more than 2^16 indexes, and an idRangeOffset pointing before the glyph id array *)
+Definition new_seg4 (segCount i resolved : Z) (q : Z * Z * Z * Z) (ga : list Z) : res (seg4 * Z) :=
   let '(end_, start, delta, iro) := q in
   if negb (start =? 65535) && negb (iro =? 0) then
-    let n := wrap16 (end_ - start + 1) in
-    let indexStart := iro / 2 + i - segCount in
-    if zlen ga <? 2 * (indexStart + n) then Err 1
-    else do ix <- read_indexes ga indexStart (Z.to_nat n); Ok (mkSeg4 start end_ delta (Some ix))
-  else Ok (mkSeg4 start end_ delta None).
-Fixpoint new_cmap4_from (segCount i : Z) (qs : list (Z * Z * Z * Z)) (ga : list Z) : res cmap4 :=
+    if end_ <? start then Err 1
+    else
+      let n := end_ - start + 1 in
+      let resolved' := resolved + n in
+      if 65536 <? resolved' then Err 1
+      else
+        let indexStart := iro / 2 + i - segCount in
+        if (indexStart <? 0) || (zlen ga <? 2 * (indexStart + n)) then Err 1
+        else do ix <- read_indexes ga indexStart (Z.to_nat n); Ok (mkSeg4 start end_ delta (Some ix), resolved')
+  else Ok (mkSeg4 start end_ delta None, resolved).
+Fixpoint new_cmap4_from (segCount i resolved : Z) (qs : list (Z * Z * Z * Z)) (ga : list Z) : res cmap4 :=
   match qs with
   | [] => Ok []
-  | q :: r => do e <- new_seg4 segCount i q ga; do t <- new_cmap4_from segCount (i + 1) r ga; Ok (e :: t)
+  | q :: r => do er <- new_seg4 segCount i resolved q ga;
+              do t <- new_cmap4_from segCount (i + 1) (snd er) r ga; Ok (fst er :: t)
   end.
-Definition new_cmap4 (qs : list (Z * Z * Z * Z)) (ga : list Z) : res cmap4 := new_cmap4_from (zlen qs) 0 qs ga.
+Definition new_cmap4 (qs : list (Z * Z * Z * Z)) (ga : list Z) : res cmap4 := new_cmap4_from (zlen qs) 0 0 qs ga.
 
 Fixpoint lookup4_loop (fuel : nat) (s : cmap4) (c i j : Z) : res (Z * bool) :=
   if i <? j then
